@@ -30,6 +30,10 @@ MC_CostVals == {<<20, 30>>, <<0, 0>>}
 MC_CostVals1 == {<<20, 30>>}
 MC_MaxVals == {100000}
 
+MC_Authorizers == {"a1", "a2"}
+MC_Targets3 == {"g1", "g7", "p1"}
+MC_Targets4 == {"g1", "g7", "p1", "p2"}
+MC_AllPeers2 == MC_GenPeers \cup MC_Cand2
 ActsAll == {"Register", "SetMax", "Authorize", "UnAuthorize", "Withdraw", "Quit", "Black", "White", "Commit",
             "AddInit", "ReduceInit", "SetCost", "Fee", "WithdrawFee", "TransferPenalty"}
 ActsStake == ActsAll \ {"SetCost", "Fee", "WithdrawFee"}
